@@ -12,6 +12,7 @@ import (
 	"github.com/robertkrimen/otto/parser"
 
 	"verif/harness/internal/c01"
+	"verif/harness/internal/core"
 )
 
 // ScriptName is the file name the program is compiled under on the "script"
@@ -139,6 +140,15 @@ func newVM(log *[][]any, tlimit int) *otto.Otto {
 		}
 		return otto.TrueValue()
 	})
+	// CB(f): a host (Go) function that calls f and hands an error of the call back to the interpreter
+	// (the specification's host function of kind hostcb)
+	vm.Set("CB", func(call otto.FunctionCall) otto.Value {
+		v, err := call.Argument(0).Call(otto.UndefinedValue())
+		if err != nil {
+			panic(err)
+		}
+		return v
+	})
 	vm.SetStackTraceLimit(tlimit)
 	return vm
 }
@@ -208,4 +218,15 @@ func ParsePosition(route, src string) (pos SyntaxObs, msg string, err error) {
 	}
 	e := (*el)[0]
 	return SyntaxObs{Line: e.Position.Line, Col: e.Position.Column}, e.Message, nil
+}
+
+func init() {
+	// Go-side witness of D19_error_text_from_construction: the text of the error Run returns
+	core.GoWitnesses["c19_error_text"] = func() (string, error) {
+		_, err := otto.New().Run(`var e = new TypeError("abc"); e.name = "Foo"; e.message = "bar"; throw e;`)
+		if err == nil {
+			return "", fmt.Errorf("no error returned")
+		}
+		return err.Error(), nil
+	}
 }
